@@ -90,6 +90,9 @@ package entrypoint
 //   a denomination prefixed by this packet's own source port and channel (a returning token, which ICS-20
 //   unescrows), the remainder is a native denomination, and that remainder with the packet's amount is
 //   the incoming coin of the transfer attributes.
+//   C12: the statistics of a transfer are filed under the route it arrived through - the IBC protocol and the
+//   Noble-side (destination) channel of the packet, the key the dispatcher takes from the transfer attributes
+//@   ensures[C12] ackSuccess(ack) && forOrb(packet) ==> theOp() != nil && theOp().TransferAttributes != nil && theOp().TransferAttributes.sourceID.ProtocolId == core.PROTOCOL_IBC && theOp().TransferAttributes.sourceID.CounterpartyId == packet.DestinationChannel
 //@   ensures[C16] ackSuccess(ack) && forOrb(packet) ==> prefixof(denomPrefix(packet.SourcePort, packet.SourceChannel), pktData(packet).Denom) && tracePath(pktDenom(packet)) == ""
 //@   ensures[C16] ackSuccess(ack) && forOrb(packet) ==> theOp() != nil && theOp().TransferAttributes != nil && theOp().TransferAttributes.sourceCoin.Denom == pktDenom(packet) &&
 //@                  val(theOp().TransferAttributes.sourceCoin.Amount) == pktAmount(packet)
